@@ -1,0 +1,59 @@
+//go:build verif
+
+// Contracts for the TLS configuration (tls_config.go, server.go): C30. Comment-only file.
+//
+// What crypto/tls does with a *tls.Config is outside the verified region (A-TLSLIB): a listener made by
+// tls.Listen(cfg) never negotiates below cfg.MinVersion (and, for a go 1.23 module, never below TLS 1.2
+// when MinVersion is 0); with ClientAuth == RequireAndVerifyClientCert it completes a handshake only
+// with a client certificate that chains to cfg.ClientCAs; and it presents whatever cfg.GetCertificate
+// returns. The contracts below pin down the *tls.Config the server hands to tls.Listen.
+package absnfs
+
+// servesFrom(cfg, tc): cfg is what BuildConfig makes of tc as far as the security floor is concerned
+//@ specdef servesFrom(cfg *tls.Config, tc *TLSConfig) bool = cfg != nil && (cfg.MinVersion == 0 || cfg.MinVersion >= 771) && cfg.MinVersion == tc.MinVersion && cfg.MaxVersion == tc.MaxVersion && cfg.ClientAuth == tc.ClientAuth && (tc.ClientAuth >= 3 && tc.CAFile != "" ==> cfg.ClientCAs != nil && poolsrc[cfg.ClientCAs] != 0) && closurefn(cfg.GetCertificate) == funcid("TLSConfig.BuildConfig$1") && *ptrof(closurecap(cfg.GetCertificate, 0), **TLSConfig) == tc && len(cfg.Certificates) == 0
+
+// 771 == tls.VersionTLS12
+//@ func TLSConfig.Validate
+//@ prop C30
+//@ requires tc != nil
+//@ modifies nothing
+//@ ensures [disabled-ok] !tc.Enabled ==> isnil(result)
+//@ ensures [floor] isnil(result) && tc.Enabled ==> (tc.MinVersion == 0 || tc.MinVersion >= 771) && tc.MinVersion <= tc.MaxVersion
+//@ ensures [files-named] isnil(result) && tc.Enabled ==> tc.CertFile != "" && tc.KeyFile != ""
+
+// the certificate callback reads the live certificate cell of the TLSConfig it was built from
+//@ func TLSConfig.BuildConfig$1
+//@ prop C30
+//@ requires tc != nil
+//@ ensures [live-cell] result0 == ptrof(atomicptr[addr(tc.currentCert)], *tls.Certificate) && isnil(result1)
+
+//@ func TLSConfig.BuildConfig
+//@ prop C30 C28
+//@ requires tc != nil
+//@ modifies tc.tlsConfig, atomicptr, bufsrc, poolsrc, locks
+//@ ensures [disabled] !tc.Enabled ==> result0 == nil && isnil(result1)
+//@ ensures [config-or-error] tc.Enabled ==> (isnil(result1) <==> result0 != nil)
+//@ ensures [fresh] result0 != nil ==> fresh(result0)
+// the version floor and ceiling handed to crypto/tls are the validated ones
+//@ ensures [floor] result0 != nil ==> (result0.MinVersion == 0 || result0.MinVersion >= 771) && result0.MinVersion == tc.MinVersion && result0.MaxVersion == tc.MaxVersion
+//@ ensures [client-auth] result0 != nil ==> result0.ClientAuth == tc.ClientAuth
+// client certificates are verified against exactly the configured CA file
+//@ ensures [client-ca] result0 != nil && tc.ClientAuth >= 3 && tc.CAFile != "" ==> result0.ClientCAs != nil && poolsrc[result0.ClientCAs] == filedata(tc.CAFile, extstate) && poolsrc[result0.ClientCAs] != 0
+//@ ensures [no-ca-otherwise] result0 != nil && !(tc.ClientAuth >= 3 && tc.CAFile != "") ==> result0.ClientCAs == nil
+// the served certificate is read, at every handshake, from this TLSConfig's certificate cell
+//@ ensures [live-cert] result0 != nil ==> closurefn(result0.GetCertificate) == funcid("TLSConfig.BuildConfig$1") && *ptrof(closurecap(result0.GetCertificate, 0), **TLSConfig) == tc && len(result0.Certificates) == 0
+//@ ensures [cert-loaded] result0 != nil ==> atomicptr[addr(tc.currentCert)] != 0 && *ptrof(atomicptr[addr(tc.currentCert)], *tls.Certificate) == keypair(tc.CertFile, tc.KeyFile, extstate)
+//@ ensures [cached] result0 != nil ==> tc.tlsConfig == result0
+//@ ensures [only-cert-cell] forall(q, mathint, q != addr(tc.currentCert) ==> atomicptr[q] == old(atomicptr[q]))
+//@ ensures [unlocked] held(tc.mu) == 0
+
+//@ func TLSConfig.ReloadCertificates
+//@ prop C30
+//@ requires tc != nil
+//@ modifies atomicptr, locks
+// rotation: after a successful reload the cell read by the handshake callback holds the key pair now on disk
+//@ ensures [reloaded] isnil(result) ==> atomicptr[addr(tc.currentCert)] != 0 && *ptrof(atomicptr[addr(tc.currentCert)], *tls.Certificate) == keypair(tc.CertFile, tc.KeyFile, extstate)
+//@ ensures [only-this-cell] forall(q, mathint, q != addr(tc.currentCert) ==> atomicptr[q] == old(atomicptr[q]))
+//@ ensures [failed-keeps] !isnil(result) ==> atomicptr[addr(tc.currentCert)] == old(atomicptr[addr(tc.currentCert)])
+//@ ensures [disabled-fails] !tc.Enabled ==> !isnil(result)
+//@ ensures [unlocked] held(tc.mu) == 0
